@@ -1,7 +1,7 @@
 """C07 - the eager scheduler wastes no cycle."""
 
 from tv.designs import gen_spec
-from tv.props._core_a import run_design
+from tv.props._core_a import run_design, tier_opts
 
 ID = "C07"
 ENGINE = "A"
@@ -26,7 +26,7 @@ def budget(tier):
 
 
 def strategy(tier):
-    return gen_spec(allow_rels=True, allow_rdep=True, sched="eager", min_trans=2, max_trans=5, allow_data=False, allow_alias=False, nonex_rate=2)
+    return gen_spec(**{**tier_opts(tier), **dict(allow_rels=True, allow_rdep=True, sched="eager", min_trans=2, max_trans=5, allow_data=False, allow_alias=False, nonex_rate=2)})
 
 
 def run_case(case):
